@@ -590,7 +590,7 @@ def run_shard(params: dict, ctx) -> None:
     for fam in fams:
         S = len(fam.sep) if fam.sep else 0
         for it in range(params["iters"]):
-            if ctx.viol_total > 400:
+            if ctx.should_stop(400):
                 return
             # ---- rule 1
             limit = rng.choice([fam.min_limit, fam.min_limit + rng.randint(1, 40), 256, 4096])
